@@ -111,6 +111,7 @@ def apply_rules(text, opts, counts, recursor_file):
     run('R1', X.r1_strip_attrs)
     run('R2', X.r2_stat)
     run('R3', X.r3_debug_assert)
+    run('R20', X.r20_eprintln)
     run('R4', X.r4_or_guard)
     if recursor_file:
         run('R5', X.r5_recursor, recursor_bodies(recursor_file))
